@@ -8,7 +8,7 @@ def jobs(tier):
 
 META = {
     "trusted_base": D.DFS_TRUSTED + ["zlib.h contract of inflate() (consumes <= avail_in, produces <= avail_out, documented return codes, Z_BUF_ERROR only without progress)", "fread/fwrite/ferror per C11"],
-    "assumptions": ["that zlib's inflate inverts gzip is assumed", "termination of the inflate loop is zlib's (no decreases clause)"],
+    "assumptions": ["that zlib's inflate inverts gzip is assumed", "termination of the inflate loops is proved relative to the zlib/stdio model: the compressed file and the decompressed stream are finite (ghost byte counts), zlib.h 'Z_OK if some progress has been made', inflate after the end of the stream returns Z_STREAM_END again and does nothing (inflate.c state DONE)"],
     "outside": ["clause (i), container choice: the extension stripping of make_image_file / split_extensions (std::deque<std::string>) -- not extractable by the stated rules; the geometry hints of make_candidate_list ARE under contract (same hints with and without .gz)"],
     "explanation": "the name hints for X.gz are the hints for X; DecompressedFile::read returns exactly the bytes that exist, like OsFile::read; gzip format only; under the zlib.h contract of inflate: every byte inflate produced is written exactly once and in order; the loop exits normally only at Z_STREAM_END; any other code, a short fwrite or a read error raises an exception by value (a non-gzip / truncated file is never passed through)",
 }
